@@ -69,22 +69,24 @@ func instances(c *core.Ctx) []*Instance {
 			&Instance{Name: "map-wrap", Kind: "map", NKeys: 3, Vals: []int{1, 2}, Hash: wrap3, Caps0: caps, MaxOps: 3},
 			&Instance{Name: "set-collide", Kind: "set", NKeys: 3, Vals: []int{1}, Hash: collide3, Caps0: caps, MaxOps: 4},
 			&Instance{Name: "set-wrap", Kind: "set", NKeys: 3, Vals: []int{1}, Hash: wrap3, Caps0: caps, MaxOps: 3},
-			&Instance{Name: "map-sim", Kind: "map", NKeys: 4, Vals: []int{1, 2}, Hash: []int{0, 5, M - 1, 0}, Caps0: [][2]int{{0, 0}, {2, 5}, {3, 1}}, MaxOps: 10, Simulate: 25},
-			&Instance{Name: "set-sim", Kind: "set", NKeys: 4, Vals: []int{1}, Hash: []int{0, 5, M - 1, 0}, Caps0: [][2]int{{0, 0}, {2, 5}, {3, 1}}, MaxOps: 10, Simulate: 25},
+			&Instance{Name: "map-sim", Kind: "map", NKeys: 4, Vals: []int{1, 2}, Hash: []int{0, 5, M - 1, 0}, Caps0: [][2]int{{0, 0}, {2, 5}, {3, 1}}, MaxOps: 10, Simulate: 15},
+			&Instance{Name: "set-sim", Kind: "set", NKeys: 4, Vals: []int{1}, Hash: []int{0, 5, M - 1, 0}, Caps0: [][2]int{{0, 0}, {2, 5}, {3, 1}}, MaxOps: 10, Simulate: 15},
 		)
 		return out
 	}
 	out = append(out,
-		&Instance{Name: "map-collide", Kind: "map", NKeys: 3, Vals: []int{1, 2}, Hash: collide3, Caps0: caps, MaxOps: 5},
-		&Instance{Name: "map-wrap", Kind: "map", NKeys: 3, Vals: []int{1, 2}, Hash: wrap3, Caps0: caps, MaxOps: 5},
-		&Instance{Name: "map-distinct", Kind: "map", NKeys: 3, Vals: []int{1, 2}, Hash: []int{0, 1, 2}, Caps0: capsRec, MaxOps: 4},
+		&Instance{Name: "map-collide", Kind: "map", NKeys: 3, Vals: []int{1, 2}, Hash: collide3, Caps0: [][2]int{{0, 0}}, MaxOps: 5},
+		&Instance{Name: "map-collide32", Kind: "map", NKeys: 3, Vals: []int{1, 2}, Hash: collide3, Caps0: [][2]int{{3, 2}}, MaxOps: 4},
+		&Instance{Name: "map-reclit", Kind: "map", NKeys: 3, Vals: []int{1, 2}, Hash: collide3, Caps0: [][2]int{{1, 1}, {2, 1}}, MaxOps: 4},
+		&Instance{Name: "map-wrap", Kind: "map", NKeys: 3, Vals: []int{1, 2}, Hash: wrap3, Caps0: caps, MaxOps: 4},
+		&Instance{Name: "map-distinct", Kind: "map", NKeys: 3, Vals: []int{1, 2}, Hash: []int{0, 1, 2}, Caps0: [][2]int{{0, 0}, {1, 5}}, MaxOps: 4},
 		&Instance{Name: "map-4keys", Kind: "map", NKeys: 4, Vals: []int{1}, Hash: []int{0, 0, M - 1, 5}, Caps0: [][2]int{{0, 0}, {4, 1}}, MaxOps: 4},
-		&Instance{Name: "set-collide", Kind: "set", NKeys: 3, Vals: []int{1}, Hash: collide3, Caps0: caps, MaxOps: 6},
+		&Instance{Name: "set-collide", Kind: "set", NKeys: 3, Vals: []int{1}, Hash: collide3, Caps0: caps, MaxOps: 5},
 		&Instance{Name: "set-wrap", Kind: "set", NKeys: 3, Vals: []int{1}, Hash: wrap3, Caps0: caps, MaxOps: 5},
-		&Instance{Name: "set-4keys", Kind: "set", NKeys: 4, Vals: []int{1}, Hash: []int{0, 0, M - 1, 5}, Caps0: [][2]int{{0, 0}, {4, 1}}, MaxOps: 5},
-		&Instance{Name: "map-sim", Kind: "map", NKeys: 4, Vals: []int{1, 2}, Hash: []int{0, 5, M - 1, 0}, Caps0: [][2]int{{0, 0}, {2, 5}, {3, 1}}, MaxOps: 16, Simulate: 400},
-		&Instance{Name: "map-sim5", Kind: "map", NKeys: 5, Vals: []int{1, 2}, Hash: []int{0, 0, 0, 4, M - 1}, Caps0: [][2]int{{0, 0}, {5, 5}}, MaxOps: 20, Simulate: 200},
-		&Instance{Name: "set-sim", Kind: "set", NKeys: 5, Vals: []int{1}, Hash: []int{0, 0, 0, 4, M - 1}, Caps0: [][2]int{{0, 0}, {2, 5}, {3, 1}}, MaxOps: 20, Simulate: 400},
+		&Instance{Name: "set-4keys", Kind: "set", NKeys: 4, Vals: []int{1}, Hash: []int{0, 0, M - 1, 5}, Caps0: [][2]int{{0, 0}, {4, 1}}, MaxOps: 4},
+		&Instance{Name: "map-sim", Kind: "map", NKeys: 4, Vals: []int{1, 2}, Hash: []int{0, 5, M - 1, 0}, Caps0: [][2]int{{0, 0}, {2, 5}, {3, 1}}, MaxOps: 16, Simulate: 150},
+		&Instance{Name: "map-sim5", Kind: "map", NKeys: 5, Vals: []int{1, 2}, Hash: []int{0, 0, 0, 4, M - 1}, Caps0: [][2]int{{0, 0}, {5, 5}}, MaxOps: 20, Simulate: 80},
+		&Instance{Name: "set-sim", Kind: "set", NKeys: 5, Vals: []int{1}, Hash: []int{0, 0, 0, 4, M - 1}, Caps0: [][2]int{{0, 0}, {2, 5}, {3, 1}}, MaxOps: 20, Simulate: 120},
 	)
 	return out
 }
@@ -117,7 +119,7 @@ func run(c *core.Ctx) error {
 	totalStates, totalTrans := 0, 0
 	t0 := time.Now()
 	for i, in := range insts {
-		recs, res, err := generate(c, in, devs, c.Thorough() && i == 0)
+		recs, res, err := generate(c, in, devs, os.Getenv("C17_COVERAGE") != "" && i == 0)
 		if err != nil {
 			return err
 		}
@@ -158,8 +160,8 @@ func run(c *core.Ctx) error {
 	}
 	// ---- API-level replay
 	var units []unit
-	perPrimary := c.Pick(25000, 1<<30)
-	perSecondary := c.Pick(2000, 40000)
+	perPrimary := c.Pick(15000, 150000)
+	perSecondary := c.Pick(1500, 15000)
 	for _, d := range data {
 		prim, sec := mapPrimary, mapSecondary
 		if d.inst.Kind == "set" {
